@@ -127,7 +127,12 @@ def gen_case(rng: random.Random, tier: str, bias: str = ''):
     proc_cls = rng.choice(['mpservice', 'mpservice', 'stdlib'])
     max_len = rng.choice([4, 8, 12]) if not big else rng.choice([12, 30, 60])
 
+    batch = []          # [None] = off; a list = collecting sub-operations of a concurrent step
+
     def emit(op, who, cmd, macros, new=None, save=None, new_owner=None, probe=True):
+        if batch and batch[0] is not None:
+            batch[0].append(dict(op=op, who=who, cmd=cmd, macros=macros, new=new or [], save=save))
+            return
         st = dict(op=op, who=who, cmd=cmd, macros=macros, expect=T.expect())
         if new:
             st['new'] = new
@@ -178,7 +183,7 @@ def gen_case(rng: random.Random, tier: str, bias: str = ''):
 
     def op_create():
         p = rng.choice(running())
-        kind = rng.choice(['list', 'list', 'dict', 'mem', 'value', 'maker'])
+        kind = rng.choice(['list', 'list', 'dict', 'mem', 'value', 'maker', 'maker'])
         i = T.new_ident(kind)
         h = add_handle(p, i)
         args = {'list': [[1, 2]], 'dict': [], 'mem': [rng.choice([1, 64, 5000])], 'value': ['i', 5], 'maker': []}[kind]
@@ -443,6 +448,52 @@ def gen_case(rng: random.Random, tier: str, bias: str = ''):
         emit('extend', p, ['call', hc, 'extend', [[{'$h': hx} for _, hx, _i in xs]]], macros)
         return True
 
+    def op_par():
+        """2-3 different clients act at the same time (each one simple operation); the director sends
+        all commands before it reads any reply"""
+        who = [p for p in running()]
+        if len(who) < 2:
+            return False
+        rng.shuffle(who)
+        batch[:] = [[]]
+        old_tokens = sorted(T.transit)      # only pickles that already exist can be un-pickled in this step
+        try:
+            for p in who[:rng.choice([2, 3])]:
+                mine = [(h, i) for pp, h, i in T.live_handles() if pp == p]
+                kind = rng.choice(['create', 'delete', 'pickle', 'unpickle'])
+                if kind == 'delete' and mine:
+                    h, i = rng.choice(mine)
+                    del T.handles[p][h]
+                    emit('delete', p, ['delete', h], [f'delete {p} {i}'])
+                elif kind == 'pickle' and mine:
+                    h, i = rng.choice(mine)
+                    tok = T.n_token
+                    T.n_token += 1
+                    T.transit[tok] = i
+                    emit('pickle', p, ['pickle', h], [f'pickle {p} {i}'], save=tok)
+                elif kind == 'unpickle' and old_tokens:
+                    tok = old_tokens.pop(rng.randrange(len(old_tokens)))
+                    i = T.transit.pop(tok)
+                    h = add_handle(p, i)
+                    emit('unpickle', p, ['unpickle', {'$saved': tok}, h], [f'unpickle {p} {i}'])
+                else:
+                    k = rng.choice(['list', 'dict', 'value'])
+                    i = T.new_ident(k)
+                    h = add_handle(p, i)
+                    if k == 'list':
+                        T.content[i] = [('v', 1), ('v', 2)]
+                    args = {'list': [[1, 2]], 'dict': [], 'value': ['i', 5]}[k]
+                    emit('create', p, ['create', KINDS[k][0], args, h], [f'create {p} {T.mk(i)} {i}'],
+                         new=[[h, i, KINDS[k][1]]])
+            subs = batch[0]
+        finally:
+            batch[:] = []
+        emit('par', '0', ['par', [[x['who'], x['cmd']] for x in subs]], [m for x in subs for m in x['macros']],
+             new=[n for x in subs for n in x['new']])
+        steps[-1]['save_par'] = {str(k): x['save'] for k, x in enumerate(subs) if x['save'] is not None}
+        steps[-1]['sub_ops'] = [x['op'] for x in subs]
+        return True
+
     def op_exit():
         # a client exits only after its own children (the parent joins it)
         cands = [q for q in running() if q != '0' and not any(T.parent.get(c) == q for c in running())]
@@ -466,8 +517,8 @@ def gen_case(rng: random.Random, tier: str, bias: str = ''):
 
     ops = [(op_create, 5), (op_pickle, 3), (op_unpickle, 4), (op_spawn, 3 if bias != 'nospawn' else 0),
            (op_delete, 4), (op_store, 4), (op_storeplain, 1), (lambda: op_take('pop'), 3),
-           (lambda: op_take('del'), 2), (lambda: op_take('get'), 3), (op_clear, 1), (op_managed, 4),
-           (op_exit, 2), (op_call, 1), (op_pass, 3), (op_readall, 2), (op_extend, 1)]
+           (lambda: op_take('del'), 2), (lambda: op_take('get'), 3), (op_clear, 1), (op_managed, 7),
+           (op_exit, 2), (op_call, 1), (op_pass, 3), (op_readall, 2), (op_extend, 1), (op_par, 3)]
     # every history starts with something to refer to
     op_create()
     n = 1
@@ -502,7 +553,7 @@ def gen_case(rng: random.Random, tier: str, bias: str = ''):
             i = T.handles['0'].pop(h)
             emit('delete', '0', ['delete', h], [f'delete 0 {i}'], probe=False)
     return dict(kind='refcount', proc_cls=proc_cls, steps=steps, winddown=winddown, n_ops=n,
-                n_clients=T.n_client, n_idents=T.n_ident, settle=1.5 if not big else 3.0,
+                n_clients=T.n_client, n_idents=T.n_ident, settle=3.0 if not big else 6.0,
                 seed=rng.randrange(1 << 30))
 
 
@@ -573,6 +624,11 @@ def run_case(case):
         if isinstance(r, dict) and '$hang' in r:
             mon.append(dict(prop='C13', rule='hang', detail=f'{where}: {r["$hang"]}'))
             break
+        if st['op'] == 'par' and isinstance(r, list):
+            bad = [x for x in r if isinstance(x, dict) and '$raised' in x]
+            if bad:
+                mon.append(dict(prop='C13', rule='op-failed', detail=f'{where} (concurrent {st["sub_ops"]}): {bad[0]["$raised"]}'))
+                break
         if isinstance(r, dict) and '$raised' in r and not (
                 st.get('may_raise') and r['$raised']['$exc'] in ('ValueError', 'TypeError') and r['$raised'].get('remote')):
             mon.append(dict(prop='C13', rule='op-failed', detail=f'{where}: {r["$raised"]}'))
